@@ -654,6 +654,7 @@ def check_c15(prog, rep, tier, cfg):
     cursor_offsets_reach_the_core_unmodified(prog, rep, "C15.g")
     cursors_in_changed_text_are_snapped(prog, rep, "C15.h")
     measurer_consults_what_decides_the_emission(prog, rep, "C15.i")
+    measurer_accounts_the_added_break_for_every_token(prog, rep, "C15.l")
     cursor_positions_are_not_narrowed(prog, rep, "C15.j")
     cursor_attach_table(prog, rep, "C15.k")
 
@@ -946,6 +947,70 @@ def measurer_consults_what_decides_the_emission(prog, rep, R):
               "what the emission step writes in front of a token depends on %s, which offset_for_token and the functions it calls never look at: the reported offsets cannot account for it" % missing,
               where="%s:%d" % (ob.file, ob.line), instance={"deciding": sorted(emitted), "consulted": sorted(measured), "measuring_family": sorted(short(k) for k in fam)})
     rep.floor(R, "observations deciding the emission", len(emitted), 8)
+
+
+def measurer_accounts_the_added_break_for_every_token(prog, rep, R):
+    """C15.l — the emission step writes, in front of every token's text, [the line break that a single-line comment lacks] and then the
+    token's whitespace; whether the break is added is decided by a function the emission step shares with the measuring code.  In
+    offset_for_token (its closures and helpers) every token whose whitespace is measured — the tokens in front of the requested one
+    and the requested one itself — is first put to that shared decision: a whitespace measure of a token that is not dominated by
+    the decision on the same token leaves the added break of exactly that token out (the cursor in it is reported too early)."""
+    REC = "pasfmt_core::defaults::reconstructor::"
+    cl = [b for b in prog.bodies.values() if b.npath.startswith("<" + REC) and b.npath.endswith("LogicalLinesReconstructor>::reconstruct::{closure#0}")]
+    ob = prog.body(REC + "DelphiLogicalLinesReconstructor::offset_for_token")
+    if not rep.check(len(cl) == 1 and ob is not None, R, "anchor:reconstruct/offset_for_token", "reconstruct's per-token closure / offset_for_token not found"):
+        return
+    import layout as _layout
+    fam = {ob.npath: ob}
+    for x in prog.bodies.values():
+        if x.npath.startswith(ob.npath + "::{closure"):
+            fam[x.npath] = x
+    for k in _layout.helper_closure(prog, sorted(b.npath for b in prog.bodies.values() if b.npath.startswith(REC)), sorted(fam)):
+        hb = prog.body(k)
+        if hb is not None and hb.npath not in (REC + "DelphiLogicalLinesReconstructor::ws_len",):
+            fam[k] = hb
+
+    def rec_callees(bodies, pred):
+        out = set()
+        for x in bodies:
+            for c in x.calls():
+                hb = prog.body(norm(c.t.get("resolved") or c.callee or ""))
+                if hb is not None and hb.npath.startswith(REC) and pred(hb):
+                    out.add(hb.npath)
+        return out
+    emit_fam = [cl[0]] + [x for x in prog.bodies.values() if x.npath.startswith(cl[0].npath + "::")]
+    is_bool = lambda hb: hb.locals[0]["ty"] == "bool"
+    shared = rec_callees(emit_fam, is_bool) & rec_callees(fam.values(), is_bool)
+
+    def measures_ws(hb):
+        if hb.locals[0]["ty"] != "usize" or hb.npath in fam:
+            return False
+        inner = [hb] + [x for x in prog.bodies.values() if x.npath.startswith(hb.npath + "::")]
+        return any((c.callee or "").endswith("::get_leading_whitespace") for x in inner for c in x.calls()) and \
+            any("FormattingData" in hb.locals[i]["ty"] for i in range(1, hb.arg_count + 1))
+    ws_fns = rec_callees(fam.values(), measures_ws)
+    if not rep.check(bool(shared) and bool(ws_fns), R, "anchor:shared-decision/whitespace-measure",
+                     "no break decision shared by the emission step and offset_for_token (%s), or no whitespace measure (%s)" % (sorted(map(short, shared)), sorted(map(short, ws_fns)))):
+        return
+    n = 0
+    for x in fam.values():
+        calls = x.calls()
+        for c in calls:
+            tgt = norm(c.t.get("resolved") or c.callee or "")
+            if tgt not in ws_fns:
+                continue
+            tok = canon(x, c.args[-1])
+            ok = False
+            for s2 in calls:
+                t2 = norm(s2.t.get("resolved") or s2.callee or "")
+                if t2 in shared and canon(x, s2.args[-1]) == tok and s2.bb != c.bb and x.dominates(s2.bb, c.bb):
+                    ok = True
+            n += 1
+            rep.check(ok, R, "break-decided-before-measuring:%s:%s" % (short(x.npath), tok[:40]),
+                      "%s measures the whitespace of %s (%s) without first asking %s about that token: the line break the emission step adds in front of it after a single-line comment is not counted for it"
+                      % (short(x.npath), tok[:40], short(tgt), sorted(short(k) for k in shared)), where=c.where(),
+                      instance={"body": short(x.npath), "token": tok[:60], "measure": short(tgt), "decision": sorted(short(k) for k in shared)})
+    rep.floor(R, "whitespace measures in offset_for_token preceded by the shared break decision", n, 1)
 
 
 def cursors_in_changed_text_are_snapped(prog, rep, R):
